@@ -77,6 +77,9 @@ def units(tier, seed):
     nf3 = len(frames_over(["a", "b", "c"]))
     for i in range(0, nf3, 8):
         u.append(dict(kind="three", lo=i, hi=min(nf3, i + 8)))
+    if tier == "thorough":   # three estimates: all histories of depth 3 from every first frame
+        for i in range(nf3):
+            u.append(dict(kind="three_deep", first=i))
     u.append(dict(kind="extras"))
     u.append(dict(kind="laws"))
     for i in range(len(FR2)):
@@ -236,6 +239,12 @@ def run_unit(unit, acc):
         for p in F3[unit["lo"]:unit["hi"]]:
             for cur in F3:
                 check_case(dict(kind="hist", hist=[list(map(list, p)), list(map(list, cur))], G=3, mode="CENTERDISTANCE"), acc)
+    elif k == "three_deep":
+        F3 = frames_over(["a", "b", "c"])
+        f1 = F3[unit["first"]]
+        for f2 in F3:
+            for f3 in F3[::2]:
+                check_case(dict(kind="hist", hist=[[], list(map(list, f1)), list(map(list, f2)), list(map(list, f3))], G=3, mode="CENTERDISTANCE"), acc)
     elif k == "extras":
         for p in FR2:
             for cur in FR2:
